@@ -248,9 +248,7 @@ theorem wr_decodeWritePkt (P : Params) (st : St) (w : BW) (pkt : Bytes) {st' : S
     (h : decodeWritePkt P st w pkt = .ok (st', w', b)) : Wr st st' := by
   unfold decodeWritePkt at h
   split at h
-  · split at h
-    · simp at h
-    · exact wr_decoderRead _ _ _ _ h
+  · exact wr_decoderRead _ _ _ _ h
   · exact wr_dwLoop _ _ _ _ _ _ _ h
 
 theorem wr_setBw (st : St) (w : BW) : Wr st { st with bw := some w } :=
